@@ -154,6 +154,53 @@ func withClosures(fn *ssa.Function) []*ssa.Function {
 	return out
 }
 
+// withHelpers: fn, its closures, and the functions of the same package it calls statically or takes as a value
+// (method values such as walker.visit included), transitively up to the given depth.  Used by rules whose anchored
+// mechanism may have been split into helpers that the normaliser cannot inline (functions used as values).
+func withHelpers(fn *ssa.Function, depth int) []*ssa.Function {
+	seen := map[*ssa.Function]bool{}
+	var out []*ssa.Function
+	var add func(f *ssa.Function, d int)
+	add = func(f *ssa.Function, d int) {
+		if f == nil || seen[f] || len(f.Blocks) == 0 {
+			return
+		}
+		if fnPkg(f) == nil || fnPkg(fn) == nil || fnPkg(f).Path() != fnPkg(fn).Path() {
+			return
+		}
+		seen[f] = true
+		if f.Synthetic == "" {
+			out = append(out, f)
+		}
+		for _, a := range f.AnonFuncs {
+			add(a, d)
+		}
+		if d <= 0 {
+			return
+		}
+		allInstrs(f, func(in ssa.Instruction) {
+			if c := callOf(in); c != nil {
+				add(c.StaticCallee(), d-1)
+			}
+			for _, op := range in.Operands(nil) {
+				if *op == nil {
+					continue
+				}
+				switch t := (*op).(type) {
+				case *ssa.Function:
+					add(t, d-1)
+				case *ssa.MakeClosure:
+					if g, ok := t.Fn.(*ssa.Function); ok {
+						add(g, d-1)
+					}
+				}
+			}
+		})
+	}
+	add(fn, depth)
+	return out
+}
+
 func findCalls(fn *ssa.Function, pred func(ssa.Instruction) bool) []ssa.Instruction {
 	var out []ssa.Instruction
 	allInstrs(fn, func(in ssa.Instruction) {
@@ -586,14 +633,26 @@ func guardEdges(fn *ssa.Function, want bool, pred func(ssa.Value) bool) map[edge
 	out := map[edge]bool{}
 	for _, i := range ifs(fn) {
 		v, flip := stripNot(i.Cond)
-		if !pred(v) {
+		if pred(v) {
+			t := want
+			if flip {
+				t = !t
+			}
+			out[condEdge{i, t}.edge()] = true
 			continue
 		}
-		t := want
-		if flip {
-			t = !t
+		// the condition is a conjunction (a && b, possibly stored in a flag and negated): the edge on which the
+		// conjunction holds implies each of its atoms
+		if _, isPhi := v.(*ssa.Phi); !isPhi {
+			continue
 		}
-		out[condEdge{i, t}.edge()] = true
+		for _, taken := range []bool{true, false} {
+			for _, a := range conjAtoms(fn, i.Cond, taken, 0) {
+				if a.Cond != v && pred(a.Cond) && a.Pos == want {
+					out[condEdge{i, taken}.edge()] = true
+				}
+			}
+		}
 	}
 	return out
 }
